@@ -85,6 +85,9 @@ class Model:
 
     def call(self, ctx, fr, callee, args, path):
         a = [self.deref(ctx, x) for x in args]
+        mq = re.match(r"^(?:[a-z_][a-z0-9_]*::)+([A-Z]\w*::\w+)$", callee)
+        if mq and mq.group(1).split("::")[0] in SIZES:
+            callee = mq.group(1)      # `culture::Element::from_index` names the same function as `Element::from_index` (cycle types only)
         m = re.match(r"^(?:<(\w+) as (?:Tyme|Culture|Clone)>|(\w+))::(\w+)$", callee)
         if m:
             kind = m.group(1) or m.group(2)
